@@ -58,6 +58,9 @@ type loopInfo struct {
 
 // Enc is the per-function encoder.
 type Enc struct {
+	nfTaint map[string]Term // constant name -> condition under which its value may be non-finite (Inf/NaN)
+	privateChans []Term // channels made here (or captured write-once) that only this function and its closures receive from / close
+	fvConst map[string]Term // address term of a write-once captured variable -> its value
 	unmarshalled bool // a decoder havocked every heap: heaps first touched later are unconstrained too (they are anyway)
 	prog         *Prog
 	fn           *ssa.Function
@@ -309,6 +312,11 @@ func (e *Enc) define(v ssa.Value, t Term) {
 	c := e.sc.Declare(name, t.Sort)
 	e.sc.AssertDef(name, Eq(c, t))
 	e.vals[v] = c
+	if t.Sort == SReal {
+		if tc, ok := e.taintOf(t); ok {
+			e.addTaint(c, tc)
+		}
+	}
 }
 
 func (e *Enc) defineFresh(v ssa.Value) Term {
@@ -503,7 +511,7 @@ func (e *Enc) applyPath(v Term, t types.Type, path []pathStep) Term {
 				// opaque struct value: unknown field
 				v = e.fresh("opaquefld", e.tr.sortOf(st.typ))
 			} else {
-				v = App(e.tr.sortOf(st.typ), v.Sort+"_"+fieldName(s.Field(st.field), st.field), v)
+				v = structField(v, e.tr.sortOf(st.typ), fieldName(s.Field(st.field), st.field), st.field)
 			}
 		} else {
 			v = Select(v, st.index)
@@ -511,6 +519,32 @@ func (e *Enc) applyPath(v Term, t types.Type, path []pathStep) Term {
 		t = st.typ
 	}
 	return v
+}
+
+// structField selects field i of struct value v; a selector applied to a constructor term is
+// simplified to the component (keeps repeated field updates of a local struct linear in size).
+func structField(v Term, fieldSort, fname string, i int) Term {
+	pre := "(mk_" + v.Sort + " "
+	if strings.HasPrefix(v.S, pre) && strings.HasSuffix(v.S, ")") {
+		body := v.S[len(pre) : len(v.S)-1]
+		k := 0
+		for len(body) > 0 {
+			body = strings.TrimLeft(body, " ")
+			if body == "" {
+				break
+			}
+			a := readSexp(body)
+			if a == "" {
+				break
+			}
+			if k == i {
+				return Term{a, fieldSort}
+			}
+			body = body[len(a):]
+			k++
+		}
+	}
+	return App(fieldSort, v.Sort+"_"+fname, v)
 }
 
 // updatePath returns v with the cell at path replaced by nv.
@@ -527,7 +561,7 @@ func (e *Enc) updatePath(v Term, t types.Type, path []pathStep, nv Term) Term {
 		var args []Term
 		for i := 0; i < s.NumFields(); i++ {
 			fs := e.tr.sortOf(s.Field(i).Type())
-			fv := App(fs, v.Sort+"_"+fieldName(s.Field(i), i), v)
+			fv := structField(v, fs, fieldName(s.Field(i), i), i)
 			if i == st.field {
 				fv = e.updatePath(fv, st.typ, path[1:], nv)
 			}
